@@ -24,7 +24,7 @@ def main():
       if a.returncode:
         res['error'] = 'patch does not apply: ' + a.stderr[-300:]
       else:
-        for chk in meta['expected_to_be_caught_by']:
+        for chk in (meta['expected_to_be_caught_by'][:1] if os.environ.get('HOME_ONLY') else meta['expected_to_be_caught_by']):
           t0 = time.time()
           r = sh('./bin/check %s --tier quick' % chk, cwd=HERE)
           lines = [l for l in r.stdout.splitlines() if l.startswith(('VIOLATION', 'INCONCLUSIVE'))]
